@@ -264,8 +264,16 @@ type mev struct {
 	N int    `json:"n"`
 	M int    `json:"m"`
 }
+type mres struct {
+	C  string `json:"c"`
+	St string `json:"st"`
+	S  int    `json:"s"`
+	N  int    `json:"n"`
+	U  bool   `json:"u"`
+}
 type tcase struct {
-	H []mev `json:"h"`
+	H   []mev `json:"h"`
+	Res *mres `json:"res"` // result of the last call (its "ret" event is not part of the history)
 }
 
 type mreq struct {
@@ -329,6 +337,9 @@ func parse(c tcase) (init [3]string, calls []*mcall, err error) {
 		default:
 			return init, nil, fmt.Errorf("unknown model event %q", e.T)
 		}
+	}
+	if c.Res != nil && cur != nil && cur.Want.C == "" {
+		cur.Want = Result{C: c.Res.C, St: c.Res.St, S: c.Res.S, N: c.Res.N, U: c.Res.U}
 	}
 	return init, calls, nil
 }
